@@ -22,7 +22,7 @@ import math
 import re
 from fractions import Fraction
 
-from ..core import Sub, fail, lit, close
+from ..core import WholeFloats, Sub, fail, lit, close
 
 V = [-3, -1, 0, 1, 2, 2.5, 4]
 AZ = 'abcdefghijklmnopqrstuvwxyz'
@@ -929,5 +929,15 @@ class ErrorItems(Sub):
         return out[:8]
 
 
+class AggWholeFloats(WholeFloats):
+    name = 'c11.whole_floats'
+    VARS = {'arr': [3, [1, 2]]}
+    TEMPLATES = [
+        ('LARGE({{5,6,7,8}},{0})', [(1,), (3,), (4,), (5,), (0,)]),
+        ('LARGE(arr,{0})', [(1,), (2,)]),
+        ('SUM({0},{1})', [(2, 3)]),
+    ]
+
+
 SUBS = [Definitions(), Regrouping(), Large(), LongLists(), Slope(), CriteriaNumeric(), CriteriaText(),
-        ErrorItems()]
+        ErrorItems(), AggWholeFloats()]
